@@ -47,6 +47,13 @@ def cases(rng, tier):
         s = gen.spell(pat, rng)
         lines, idx = block(s, rng)
         yield Case(lines, {"kind": "exhaustive", "idx": idx}, nontrivial=len(set(s)) >= 2 and len(s) >= 6)
+    # lopsided compositions in every regime of the delta-max search (inversion maps them to the mirror composition)
+    for k in (5, 6, 8, 11, 12, 14, 19):
+        for m in (1, 2):
+            for n0 in (0, 5, 17, 18, 19, 25):
+                s = gen.spell(gen.arrange((k, m, n0), rng), rng)
+                lines, idx = block(s, rng)
+                yield Case(lines, {"kind": "lopsided", "idx": idx})
     for kind, s in gen.rand_seqs(rng, 120 if tier == "quick" else 1200, 200):
         lines, idx = block(s, rng)
         yield Case(lines, {"kind": kind, "idx": idx}, nontrivial=len(set(s)) >= 2 and len(s) >= 6)
